@@ -200,20 +200,21 @@ pub struct Shards {
     pub events: u64,
     pub bytes: u64,
     prop: String,
+    build: String,
 }
 impl Shards {
-    pub fn create(dir: &Path, prop: &str, n: usize) -> std::io::Result<Self> {
+    pub fn create(dir: &Path, prop: &str, n: usize, build: &str) -> std::io::Result<Self> {
         std::fs::create_dir_all(dir)?;
         let mut files = Vec::new();
         for k in 0..n.max(1) {
             files.push(BufWriter::with_capacity(1 << 20, File::create(dir.join(format!("{prop}-{k:02}.ndjson")))?));
         }
-        Ok(Self { files, next: 0, events: 0, bytes: 0, prop: prop.to_string() })
+        Ok(Self { files, next: 0, events: 0, bytes: 0, prop: prop.to_string(), build: build.to_string() })
     }
     /// `body` is the inside of a JSON object WITHOUT braces, e.g. `"ev":"dec","n":8`
     pub fn emit(&mut self, body: &str) {
         self.events += 1;
-        let line = format!("{{\"id\":{},\"p\":\"{}\",{}}}\n", self.events, self.prop, body);
+        let line = format!("{{\"id\":{},\"p\":\"{}\",\"b\":\"{}\",{}}}\n", self.events, self.prop, self.build, body);
         self.bytes += line.len() as u64;
         let k = self.next;
         self.next = (self.next + 1) % self.files.len();
